@@ -557,6 +557,17 @@ struct Exec {
         // the work is quadratic in the length: beyond 48 KiB the cuts are thinned out (counted, so that the
         // evidence does not call such a file exhaustively swept)
         uint64_t stride = len > 49152 ? len / 49152 + 1 : 1;
+        {
+            // ... and in the number of device reads it takes, which the installed buffer and chunk sizes decide:
+            // about readers * len^2 / 2 bytes go through reads of `piece` bytes each; keep that below ~3e7 events
+            uint64_t piece = 4096;
+            if (W->fs.policy.bufsize == 0) piece = 1;
+            if (W->fs.policy.bufsize > 0 && (uint64_t)W->fs.policy.bufsize < piece) piece = (uint64_t)W->fs.policy.bufsize;
+            if (W->fs.policy.chunk > 0 && W->fs.policy.chunk < piece) piece = W->fs.policy.chunk;
+            double events = (double)op.at("readers").a.size() * (double)len * (double)len / 2.0 / (double)piece;
+            uint64_t by_cost = (uint64_t)(events / 3e7) + 1;
+            if (by_cost > stride) stride = by_cost;
+        }
         if (stride > 1) count("sweep_files_thinned");
         for (uint64_t n = lo; n < hi; n += stride) {
             uint64_t mark = W->heap.mark();
@@ -968,6 +979,18 @@ struct Exec {
                             if (ok) cc.polys.push_back(line);
                         }
                     }
+                } else if (p.impl == 0 && p.nelem > 1 && p.bend > 0) {
+                    // simple FlexPath with several elements and circular bends: one PATH per element along the
+                    // centre line the writer computes for it
+                    std::vector<region::Poly> cl;
+                    guarded([&]() { cl = bridge::flex_centres(m, p); });
+                    std::string props = canon::props_str(p.props, canon::GDS);
+                    for (auto& q : cl) {
+                        bool ok;
+                        std::string line = canon::path_line(canon::GDS, p.layer, p.dtype, q, canon::rgrid(2 * p.hw), p.end,
+                                                            canon::rgrid(p.eu), canon::rgrid(p.ev), p.scale_width, {}, props, ok);
+                        if (ok) cc.paths.push_back(line);
+                    }
                 } else if (p.impl == 1) {
                     // simple RobustPath: the writer samples the centre line itself
                     std::vector<region::Poly> cl;
@@ -998,10 +1021,35 @@ struct Exec {
         return E;
     }
 
+    // do two edges of the outline cross properly?  (an outline gdstk computes for a path may do that: strong
+    // tapers with round joins; what region such an outline "covers" depends on a fill rule the format does not
+    // have, so the region comparison is only made for outlines that do not cross themselves)
+    static bool crosses_itself(const region::Poly& p) {
+        size_t n = p.size();
+        if (n > 1500) return false;  // (quadratic test; long outlines are the writer's business elsewhere)
+        auto cr = [](const canon::IPt& a, const canon::IPt& b, const canon::IPt& c) {
+            return (__int128)(b.x - a.x) * (c.y - a.y) - (__int128)(b.y - a.y) * (c.x - a.x);
+        };
+        for (size_t i = 0; i < n; i++)
+            for (size_t j = i + 2; j < n; j++) {
+                if (i == 0 && j == n - 1) continue;
+                const canon::IPt &a = p[i], &b = p[(i + 1) % n], &c = p[j], &d = p[(j + 1) % n];
+                __int128 d1 = cr(c, d, a), d2 = cr(c, d, b), d3 = cr(a, b, c), d4 = cr(a, b, d);
+                if (((d1 > 0 && d2 < 0) || (d1 < 0 && d2 > 0)) && ((d3 > 0 && d4 < 0) || (d3 < 0 && d4 > 0))) return true;
+            }
+        return false;
+    }
+
     bool check_regions(const Expect& E, const canon::CLib& got, uint64_t max_points, const std::string& vprop, const J& ctx) {
         for (auto& ckv : E.region) {
             auto git = got.cells.find(ckv.first);
             for (auto& tkv : ckv.second) {
+                bool crossing = false;
+                for (auto& o : tkv.second) crossing = crossing || crosses_itself(o);
+                if (crossing) {
+                    count("region_comparisons_skipped_outline_crosses_itself");
+                    continue;
+                }
                 std::vector<region::Poly> pieces;
                 if (git != got.cells.end()) {
                     auto rit = git->second.region.find(tkv.first);
@@ -1922,6 +1970,15 @@ struct Exec {
                         bool ok;
                         std::string line = canon::poly_line(p.layer, p.dtype, q, canon::rep_grid(p.rep), props, ok);
                         if (ok) cc.polys.push_back(line);
+                    }
+                } else if (p.impl == 0 && p.nelem > 1 && p.bend > 0) {
+                    std::vector<region::Poly> cl;
+                    guarded([&]() { cl = bridge::flex_centres(m, p, false); });
+                    for (auto& q : cl) {
+                        bool ok;
+                        std::string line = canon::path_line(canon::OAS, p.layer, p.dtype, q, 2 * canon::rgrid(p.hw), p.end,
+                                                            canon::rgrid(p.eu), canon::rgrid(p.ev), true, canon::rep_grid(p.rep), props, ok);
+                        if (ok) cc.paths.push_back(line);
                     }
                 } else if (p.impl == 1) {
                     std::vector<region::Poly> cl;
